@@ -116,6 +116,16 @@ type cfg struct {
 	depth     int
 	pair      bool // state-cookie manipulation x pkce-cookie manipulation (full product) instead of one manipulation
 	rich      bool // thorough: POST form callbacks, missing code, partially different keys, empty value
+	scopes    []string // configured scopes (nil: the default list with openid)
+}
+
+// scopeList is the scope list the RP is configured with: "the authorization URL always carries
+// the configured ... scopes" must hold for any list, with or without openid, in the given order.
+func (p *cfg) scopeList() []string {
+	if p.scopes != nil {
+		return p.scopes
+	}
+	return scopes
 }
 
 func (p *cfg) hashKey() []byte { return k1Hash }
@@ -409,10 +419,10 @@ func newWorld(p *cfg) (*world, error) {
 	var err error
 	if p.oidc {
 		opts = append(opts, rp.WithVerifierOpts(rp.WithSupportedSigningAlgorithms("ES256")))
-		w.party, err = rp.NewRelyingPartyOIDC(context.Background(), issuer, clientID, clientSecret, redirectURI, slices.Clone(scopes), opts...)
+		w.party, err = rp.NewRelyingPartyOIDC(context.Background(), issuer, clientID, clientSecret, redirectURI, slices.Clone(p.scopeList()), opts...)
 	} else {
 		w.party, err = rp.NewRelyingPartyOAuth(&oauth2.Config{
-			ClientID: clientID, ClientSecret: clientSecret, RedirectURL: redirectURI, Scopes: slices.Clone(scopes),
+			ClientID: clientID, ClientSecret: clientSecret, RedirectURL: redirectURI, Scopes: slices.Clone(p.scopeList()),
 			Endpoint: oauth2.Endpoint{AuthURL: authURL, TokenURL: tokenURL},
 		}, opts...)
 	}
@@ -590,7 +600,7 @@ func (w *world) start(judge bool) (engine.Result, string) {
 	if got := loc.Scheme + "://" + loc.Host + loc.Path; got != authURL {
 		return bad("authurl", "endpoint", got)
 	}
-	want := map[string]string{"client_id": clientID, "redirect_uri": redirectURI, "scope": strings.Join(scopes, " "),
+	want := map[string]string{"client_id": clientID, "redirect_uri": redirectURI, "scope": strings.Join(w.p.scopeList(), " "),
 		"state": st, "response_type": "code"}
 	for _, name := range []string{"client_id", "redirect_uri", "scope", "state", "response_type"} {
 		if len(q[name]) != 1 || q.Get(name) != want[name] {
@@ -1100,6 +1110,14 @@ func TestCheck(t *testing.T) {
 	if c.Thorough() {
 		add("oidc-pkce-jwt-rsa", func(p *cfg) { p.oidc, p.pkce, p.jwt = true, true, "rsa_pkcs1" })
 	}
+	// configured scope lists other than the usual one: without openid (OIDC and OAuth RP), a single scope, duplicates kept as configured
+	add("oidc-pkce-scopes-without-openid", func(p *cfg) {
+		p.oidc, p.pkce, p.scopes, p.maxStarts, p.depth, p.pair = true, true, []string{"profile", "email", "offline_access"}, 2, 4, false
+	})
+	add("oauth-scopes-without-openid", func(p *cfg) {
+		p.scopes, p.maxStarts, p.depth, p.pair = []string{"email", "api:read"}, 2, 4, false
+	})
+	add("oidc-single-scope", func(p *cfg) { p.oidc, p.scopes, p.maxStarts, p.depth, p.pair = true, []string{"openid"}, 2, 3, false })
 	add("oauth-nocookiehandler", func(p *cfg) { p.noCookie, p.maxStarts, p.depth, p.rich, p.pair = true, 2, 3, false, false })
 	for _, p := range parts {
 		engine.RunE2(c, engine.E2[S]{
